@@ -64,7 +64,17 @@ func (n *UnquoteNode) MacroType(env *types.GlobalEnvironment) types.Type {
 }
 
 func (n *UnquoteNode) splice(loc *position.Location, args *[]Node, unquote bool) Node {
-	if args == nil || len(*args) == 0 {
+	if args == nil {
+		// There are no replacement nodes, only the locations get updated
+		// (eg. in the result of a macro). The unquote node stays in place so that
+		// the checker can report it as invalid in this context.
+		return &UnquoteNode{
+			TypedNodeBase: TypedNodeBase{loc: position.SpliceLocation(loc, n.loc, unquote), typ: n.typ},
+			Kind:          n.Kind,
+			Expression:    n.Expression.splice(loc, args, unquote).(ExpressionNode),
+		}
+	}
+	if len(*args) == 0 {
 		panic("too few arguments for splicing AST nodes")
 	}
 
